@@ -99,6 +99,28 @@ CHECKS = {
             "and get_filter_conditions/actions/matchtype are compared with what was supplied, "
             "in each of the four views.",
             "Normal form: tuples, numbers by str(); quotes/backslashes are C06's."),
+    "C13": ("exploration", "DESIGN.md §2 C13",
+            "runtime monitoring: history differential against a pristine (forked, import-only) "
+            "interpreter, cross-checked against real fresh interpreters",
+            "Every step of every history (all ordered pairs over 44 scripts + 14 factory "
+            "steps in reused-parser and fresh-parser mode, random longer histories) is executed "
+            "in a forked child and its outcome (verdict, error text/position, tree, "
+            "serialisation, hash comments; factory return/exception/rendering/read-back) "
+            "compared with the outcome of the same step in a pristine child.",
+            "fork() of an import-only parent == fresh interpreter (sampled cross-check each "
+            "run)."),
+    "C20": ("exploration", "DESIGN.md §2 C20",
+            "runtime monitoring: definition-interpreter oracle (README format) + tree and "
+            "round-trip monitors, each generated command class registered in its own forked "
+            "child",
+            "Generated argument definitions of the documented shape are registered with "
+            "add_commands in an isolated child; every enumerated use and single-edit invalid "
+            "variant is judged by an interpreter of the definition; accepted uses must be "
+            "recorded under the defined slot names in source order, be isomorphic to the "
+            "generic tree and survive serialise/re-parse; unregistered names must stay "
+            "unknown.",
+            "Trusted: the definition interpreter in rv/checks/c20.py. UNSPEC classes listed "
+            "in the evidence assumptions."),
 }
 
 
